@@ -4,11 +4,38 @@ PROPS["C04"] = dict(
     level_text="For every layer class, random programs of 1-12 setter calls (scalar fields and typed option setters; arguments generated for the setters' real parameter types, including every option struct "
                "of the current headers) are run against a shadow map field->value; after every call every shadowed getter must return the value set, the layer's serialization must re-parse with the "
                "class's own from-buffer constructor, every shadowed getter of the re-parsed object must return the same value, and a second serialization must equal the first. DNS records and RadioTap "
-               "fields have dedicated checks (C10, C11); IPv6 extension-header length and RFC 4884 fields are also covered by C05.",
+               "fields have dedicated checks (C10, C11); IPv6 extension-header length and RFC 4884 fields are also covered by C05. "
+               "Phase 'lists' (harness/c04_lists.cpp) drives histories of RAW additions, removals and look-ups on every list-bearing class (TCP, IP, DHCP, DHCPv6, ICMPv6 options, Dot11 "
+               "management-frame elements, PPPoE tags, IPv6 extension headers, RTP CSRC/extension words, ICMP/ICMPv6 RFC 4884 extension objects) against an ordered shadow list with only 1-3 "
+               "distinct codes per history, so duplicates of one code are the normal case: after every step the list getter must equal the shadow (order, codes, bytes, length fields), remove() must "
+               "report and remove exactly the first match, search() must return the first match (identity where the getter returns a reference), size() must equal the size the wire format implies "
+               "(own encoder), the option region of the serialization must equal the own encoding, the class's own parser must return the same list, and the re-serialization must be identical; "
+               "one step in eight continues the history on the parsed object.",
     level_note="Trusted: argument generators keep values inside what the argument type can hold; pairs whose argument space is wider than the wire field are listed as in-range preconditions in harness/c04.cpp. "
-               "A typed option is set at most once per program (a second add would sit behind the first match).",
-    phases=[dict(name="programs", harness="c04.cpp", flavor="asan", mode="main", cases=dict(quick=400000, thorough=6000000))],
-    rule="case = (class, random program of setter calls); distinct = distinct program text; non-trivial: every program step is followed by getter, wire and re-serialization checks",
-    floors=dict(any={"distinct": 200000, "wire_checks": 1000000, "getter_checks": 1000000, "steps:option-setter": 300000, "steps:scalar-setter": 300000, "field:*": 20}),
+               "A typed option is set at most once per program (a second add would sit behind the first match); repeated codes are the business of phase 'lists'. "
+               "Phase 'lists' only adds what the protocol can represent (restrictions listed at the top of harness/c04_lists.cpp and counted as lists-skip:*): no TCP EOL / IPv4 END elements, NOP/NOOP/PAD/END/"
+               "End-Of-List without data and nothing after END/End-Of-List, 40-octet TCP/IPv4 option space, one-octet length limits, ND option data of 8k-2 octets, only chained IPv6 extension header ids "
+               "(data of 8k-2 octets, else compared with the zero padding IPv6 itself appends), <=15 CSRC ids, RFC 4884 objects only behind a >=128-octet datagram.",
+    phases=[dict(name="programs", harness="c04.cpp", flavor="asan", mode="main", cases=dict(quick=400000, thorough=6000000)),
+            dict(name="lists", harness="c04_lists.cpp", flavor="asan", mode="lists", cases=dict(quick=40000, thorough=2000000))],
+    rule="case = (class, random program of setter calls); distinct = distinct program text; non-trivial: every program step is followed by getter, wire and re-serialization checks; "
+         "lists phase: case = (class, configuration, 1-3 codes, program of 1..14 add/remove/search steps with random data of 0..N octets), distinct = distinct program text",
+    floors=dict(any={"distinct": 200000, "wire_checks": 1000000, "getter_checks": 1000000, "steps:option-setter": 300000, "steps:scalar-setter": 300000, "field:*": 20,
+                     # phase "lists" (quick tier observes roughly 2-3x these)
+                     "lists:programs": 30000, "lists:distinct-histories": 25000, "lists:programs-with-duplicate-codes": 12000, "lists:getter_checks": 150000, "lists:size_checks": 150000,
+                     "lists:wire_checks": 150000, "lists:dup-code-present": 12000, "lists:search-identity-checks": 10000, "lists:add-remove-neutral-checks": 15000, "lists:continued-on-parsed-object": 10000,
+                     "lists:TCP:add": 5000, "lists:IP:add": 5000, "lists:DHCP:add": 5000, "lists:DHCPv6:add": 5000, "lists:ICMPv6:add": 5000, "lists:RTP:add": 5000, "lists:IPv6:add": 4000, "lists:PPPoE:add": 3000,
+                     "lists:Dot11Beacon:add": 3000, "lists:Dot11ProbeResponse:add": 3000, "lists:Dot11AssocRequest:add": 3000, "lists:ICMP.extensions:add": 3000, "lists:ICMPv6.extensions:add": 3000,
+                     "lists:TCP:remove-hit": 1200, "lists:IP:remove-hit": 1200, "lists:DHCP:remove-hit": 1200, "lists:DHCPv6:remove-hit": 1200, "lists:ICMPv6:remove-hit": 1200, "lists:RTP:remove-hit": 700,
+                     "lists:Dot11Beacon:remove-hit": 600, "lists:Dot11ProbeResponse:remove-hit": 600, "lists:Dot11AssocRequest:remove-hit": 600,
+                     "lists:TCP:remove-with-duplicates": 600, "lists:IP:remove-with-duplicates": 600, "lists:DHCP:remove-with-duplicates": 600, "lists:DHCPv6:remove-with-duplicates": 600,
+                     "lists:ICMPv6:remove-with-duplicates": 600, "lists:RTP:remove-with-duplicates": 200, "lists:Dot11Beacon:remove-with-duplicates": 300, "lists:Dot11ProbeResponse:remove-with-duplicates": 300,
+                     "lists:Dot11AssocRequest:remove-with-duplicates": 300,
+                     "lists:TCP:remove-miss": 1000, "lists:IP:remove-miss": 1000, "lists:DHCP:remove-miss": 1000, "lists:DHCPv6:remove-miss": 1000, "lists:ICMPv6:remove-miss": 1000, "lists:RTP:remove-miss": 1000,
+                     "lists:TCP:search-hit": 1200, "lists:IP:search-hit": 1200, "lists:DHCP:search-hit": 1200, "lists:DHCPv6:search-hit": 1200, "lists:ICMPv6:search-hit": 1200, "lists:RTP:search-hit": 700,
+                     "lists:PPPoE:search-hit": 1000, "lists:IPv6:search-hit": 1000, "lists:Dot11Beacon:search-hit": 600, "lists:Dot11ProbeResponse:search-hit": 600, "lists:Dot11AssocRequest:search-hit": 600,
+                     "lists:TCP:search-miss": 1000, "lists:IP:search-miss": 1000, "lists:DHCP:search-miss": 1000, "lists:DHCPv6:search-miss": 1000, "lists:ICMPv6:search-miss": 1000, "lists:PPPoE:search-miss": 700,
+                     "lists:IPv6:search-miss": 700, "lists:TCP:dup-code-present": 1200, "lists:IP:dup-code-present": 1200, "lists:DHCP:dup-code-present": 1200, "lists:DHCPv6:dup-code-present": 1200,
+                     "lists:ICMPv6:dup-code-present": 1200, "lists:PPPoE:dup-code-present": 500, "lists:IPv6:dup-code-present": 700, "lists:RTP:dup-code-present": 400}),
     assumptions=["x86-64 little-endian", "layers are serialized standalone (no parent): pseudo-header checksums are C05's business"],
 )
